@@ -175,10 +175,21 @@ namespace {
         if (en.size() == 1) return en[0];
         g.multi++;
         Thr* pick = nullptr;
+        auto default_rule = [&]() -> Thr* {
+            Thr* best = nullptr;
+            for (Thr* t : en) {
+                if (t == self) return t;
+                if (!best || t->id < best->id) best = t;
+            }
+            return best;
+        };
         if (g.guided_pos < g.cfg.guided.size()) {
             int want = g.cfg.guided[g.guided_pos++];
             for (Thr* t : en)
                 if (t->id == want) pick = t;
+            if (!pick && g.cfg.guided_default_tail) pick = default_rule();
+        } else if (g.cfg.guided_default_tail) {
+            pick = default_rule();
         }
         if (!pick) {
             switch (g.cfg.policy) {
@@ -233,6 +244,7 @@ namespace {
 
         Thr* next = nullptr;
         std::vector<Thr*> en;
+        u64 idle_rounds = 0;
         for (;;) {
             fire_due();
             en.clear();
@@ -252,6 +264,15 @@ namespace {
                 fatal("deadlock", cls.first, cls.second + "\n" + describe_threads());
             }
             if (t > g.now) g.now = t;
+            // nobody can run and only (periodic) events keep coming: the simulated-time budget ends the run
+            if (g.now > g.cfg.max_sim_ns || ++idle_rounds > 20000000ULL) {
+                std::pair<std::string, std::string> cls { "sim.timeout:simulated-time-budget", "" };
+                if (g_fatal_cls) {
+                    auto c = g_fatal_cls("timeout");
+                    if (!c.first.empty()) cls = c;
+                }
+                fatal("timeout", cls.first, cls.second + std::string("\nno thread can run; budget exceeded while waiting at site ") + site + "\n" + describe_threads());
+            }
         }
         if (en.size() > 1) {
             g.shash = mix(g.shash, mix(static_cast<u64>(next->id), hash_str(site)));
